@@ -1,4 +1,174 @@
+import BobModel.Model.Audit
+import BobModel.Util.Sha1
 import BobModel.Util.Proto
-open Lean Proto
-/-- stub driver of C14: replaced when the model of this property is built -/
-def main : IO Unit := runPure fun _ => err "unsupported"
+open Lean Proto Audit
+
+/-
+Driver of the C14 model (pym/bob/audit.py).  H = SHA-1 (Util/Sha1.lean), so artifact ids are bit exact.
+
+Python values travel in a tagged form (JSON cannot tell bytes from str, and dict order matters for the
+model's dict operations):
+   {"s":[code points]} | {"m":[[ [code points], v ], ...]} | {"l":[v,...]} | {"i":"decimal"} | {"b":bool}
+   | {"x":"hex"} | null
+
+requests
+ {"op":"digest","data":v}                  -> {"ok":hex of the digested bytes,"sha1":hex} | {"err":"struct"}
+ {"op":"scenario","ops":[op,...]}          -> {"res":[result per op]}
+   op = {"o":"new","s":slot,"rec":v}         artifact from a record dict (Artifact.load); -> "ok" | "parseerror"
+        {"o":"define"|"metaenv"|"file","s":slot,"k":[cp],"v":[cp]}
+        {"o":"env","s":slot,"v":[cp]}   {"o":"recipes","s":slot,"v":v|absent}   {"o":"layers","s":slot,"v":{"m":..}}
+        {"o":"getid","s":slot}               -> hex (leaves the id cached, as getId() does)
+        {"o":"save","s":slot,"f":file}       {"o":"load","f":file,"s":slot}
+        {"o":"loadraw","f":file,"tree":{"artifact":v,"references":[v,...]}} -> "ok" | "parseerror"
+        {"o":"addarg","s":slot,"f":file}  {"o":"addtool","s":slot,"n":[cp],"f":file}  {"o":"sandbox","s":slot,"f":file}
+        {"o":"query","s":slot}               -> {"id":hex,"keys":[hex],"refs":[hex],"valid":"ok"|"missing"|"fuel",
+                                                 "rbi":[hex]|"keyerror"|"fuel","consistent":bool}
+-/
+
+def cps (j : Json) : Str :=
+  match j with
+  | .arr a => a.toList.map fun x => Char.ofNat ((x.getNat?.toOption).getD 0)
+  | _ => []
+
+partial def dataOf (j : Json) : Data :=
+  match j with
+  | .null => .null
+  | _ =>
+    match j.getObjVal? "s" with
+    | .ok v => .str (cps v)
+    | _ => match j.getObjVal? "m" with
+      | .ok (.arr a) => .map (a.toList.map fun p => match p with
+          | .arr kv => (cps (kv.getD 0 .null), dataOf (kv.getD 1 .null))
+          | _ => ([], .null))
+      | _ => match j.getObjVal? "l" with
+        | .ok (.arr a) => .list (a.toList.map dataOf)
+        | _ => match j.getObjVal? "i" with
+          | .ok (.str s) => .int (s.toInt?.getD 0)
+          | _ => match j.getObjVal? "b" with
+            | .ok (.bool b) => .bool b
+            | _ => match j.getObjVal? "x" with
+              | .ok (.str s) => .bytes ((Bytes.ofHex s).getD [])
+              | _ => .null
+
+def sha1 : Bytes → Id := Sha1.hashBytes
+
+def hexJ (b : Bytes) : Json := Json.str (Bytes.toHex b)
+
+def hexArr (l : List Bytes) : Json := Json.arr (l.map hexJ).toArray
+
+structure St where
+  slots : List (String × Audit.Audit)
+  files : List (String × Audit.Audit)
+
+def assocGet {α : Type} (l : List (String × α)) (k : String) : Option α :=
+  (l.find? fun p => p.1 == k).map Prod.snd
+
+def assocSet {α : Type} (l : List (String × α)) (k : String) (v : α) : List (String × α) :=
+  (k, v) :: l.filter fun p => p.1 != k
+
+def artifactOf (d : Data) (strict : Bool := true) : Option Artifact :=
+  match d with
+  | .map kvs => Artifact.ofData kvs strict
+  | _ => none
+
+def treeOf (j : Json) : Option Audit.Audit := do
+  let a ← artifactOf (dataOf (j.getObjValD "artifact"))
+  -- Artifact.load demands the `artifact-id` key; Audit.load reads it from every reference
+  let _ ← a.cachedId
+  let rl ← match j.getObjVal? "references" with
+    | .ok (.arr a) => some a.toList
+    | _ => none
+  let refs ← rl.mapM fun r => do
+    let x ← artifactOf (dataOf r)
+    let i ← x.cachedId
+    pure (i, x)
+  pure { artifact := a, references := refs }
+
+def vres : Audit.VResult → Json
+  | .ok => "ok" | .missing _ => "missing" | .outOfFuel => "fuel"
+
+def rres : Audit.RResult → Json
+  | .ok ids => hexArr ids | .keyError => "keyerror" | .outOfFuel => "fuel"
+
+def withSlot (st : St) (j : Json) (f : Audit.Audit → Audit.Audit × Json) : St × Json :=
+  let s := getStr j "s"
+  match assocGet st.slots s with
+  | none => (st, "noslot")
+  | some a =>
+    let (a', r) := f a
+    ({ st with slots := assocSet st.slots s a' }, r)
+
+def onArtifact (st : St) (j : Json) (f : Artifact → Artifact) : St × Json :=
+  withSlot st j fun a => ({ a with artifact := f a.artifact }, Json.null)
+
+def withFile (st : St) (j : Json) (f : Audit.Audit → Audit.Audit → Audit.Audit) : St × Json :=
+  match assocGet st.files (getStr j "f") with
+  | none => (st, "nofile")
+  | some file => withSlot st j fun a => (f a (Audit.load sha1 file), Json.null)
+
+def stepOp (st : St) (j : Json) : St × Json :=
+  match getStr j "o" with
+  | "new" =>
+    match artifactOf (dataOf (j.getObjValD "rec")) false with
+    | none => (st, "parseerror")
+    | some a => ({ st with slots := assocSet st.slots (getStr j "s") { artifact := a, references := [] } }, "ok")
+  | "define" => onArtifact st j fun a => a.addDefine (cps (j.getObjValD "k")) (cps (j.getObjValD "v"))
+  | "metaenv" => onArtifact st j fun a => a.addMetaEnv (cps (j.getObjValD "k")) (cps (j.getObjValD "v"))
+  | "file" => onArtifact st j fun a => a.addAuditFile (cps (j.getObjValD "k")) (cps (j.getObjValD "v"))
+  | "env" => onArtifact st j fun a => a.setEnv (cps (j.getObjValD "v"))
+  | "recipes" => onArtifact st j fun a => a.setRecipes ((getObj? j "v").map dataOf)
+  | "layers" => onArtifact st j fun a =>
+      a.setLayers (match dataOf (j.getObjValD "v") with | .map m => m | _ => [])
+  | "getid" => withSlot st j fun a =>
+      ({ a with artifact := a.artifact.dump sha1 }, hexJ (a.artifact.getId sha1))
+  | "save" =>
+    let s := getStr j "s"
+    match assocGet st.slots s with
+    | none => (st, "noslot")
+    | some a =>
+      let t := Audit.save sha1 a
+      ({ slots := assocSet st.slots s t, files := assocSet st.files (getStr j "f") t }, Json.null)
+  | "load" =>
+    match assocGet st.files (getStr j "f") with
+    | none => (st, "nofile")
+    | some t => ({ st with slots := assocSet st.slots (getStr j "s") (Audit.load sha1 t) }, "ok")
+  | "loadraw" =>
+    match treeOf (j.getObjValD "tree") with
+    | none => (st, "parseerror")
+    | some t => ({ st with files := assocSet st.files (getStr j "f") t }, "ok")
+  | "addarg" => withFile st j fun a o => Audit.addArg sha1 a o
+  | "addtool" => withFile st j fun a o => Audit.addTool sha1 a (cps (j.getObjValD "n")) o
+  | "sandbox" => withFile st j fun a o => Audit.setSandbox sha1 a o
+  | "query" => withSlot st j fun a =>
+      let a' := { a with artifact := a.artifact.dump sha1 }
+      let fuel := getNat j "fuel"
+      (a', Json.mkObj [
+        ("id", hexJ (a'.artifact.getId sha1)),
+        ("keys", hexArr (refKeys a'.references)),
+        ("refs", hexArr a'.artifact.getReferences),
+        ("valid", vres (Audit.validate a')),
+        ("rbi", rres (Audit.getReferencedBuildIds fuel a')),
+        -- every stored record's id equals the hash of its own content
+        ("consistent", Json.bool (a'.references.all fun p =>
+            p.1 == p.2.getId sha1 && p.1 == (p.2.invalidate).getId sha1))])
+  | _ => (st, "bad-op")
+
+def handle (j : Json) : Json :=
+  match getStr j "op" with
+  | "digest" =>
+    let d := dataOf (j.getObjValD "data")
+    match digest? d with
+    | some b => Json.mkObj [("ok", hexJ b), ("sha1", hexJ (sha1 b))]
+    | none => Json.mkObj [("err", "struct")]
+  | "scenario" =>
+    let (_, out) := (getArr j "ops").foldl (fun (acc : St × List Json) op =>
+      let (st', r) := stepOp acc.1 op
+      (st', r :: acc.2)) (({ slots := [], files := [] } : St), [])
+    Json.mkObj [("res", Json.arr out.reverse.toArray)]
+  | _ => err "bad-op"
+
+/-- {"op":"batch","reqs":[request,...]} -> {"res":[reply,...]} (one line for many requests) -/
+def main : IO Unit := runPure fun j =>
+  match getStr j "op" with
+  | "batch" => Json.mkObj [("res", Json.arr ((getArr j "reqs").map handle).toArray)]
+  | _ => handle j
